@@ -182,6 +182,17 @@ func (r *Run) oracleC04() {
 			break // the first successful one is the switch-on
 		}
 	}
+	// a version, once visible, never changes: later stacking (in particular of
+	// updates that end up rejected) leaves every installed snapshot as it was
+	// when it became visible. (C02's runs scribble on versions on purpose.)
+	if r.sc.Prop != "C02" {
+		for i, in := range r.installs {
+			if now := render(in.Ptr); now != in.FP {
+				r.fail("C04.view-mutated", "version serial=%d (installed at step %d, %d versions in all) changed after it became visible:\n  then: %s\n  now:  %s", in.Serial, in.Step, len(r.installs)-i, in.FP, now)
+				break
+			}
+		}
+	}
 	// everything a program observed is an installed version
 	for _, op := range r.ops {
 		if op.Cfg == nil {
